@@ -150,6 +150,7 @@ func c01Body(r *Run) {
 
 	// output UUID -> the (latest) invocation that returned it; a router may hand the publisher the returned objects or equal copies
 	consumedOf := map[string]*c1Inv{}
+	deadCtx := map[string]int{}
 	for _, s := range stages {
 		s := s
 		s.pub.Hook = func(c *PubCall) {
@@ -166,6 +167,17 @@ func c01Body(r *Run) {
 			}
 		}
 		rig.Router.AddHandler(s.name, s.in, psFor(s.level), s.out, s.pub, func(m *message.Message) ([]*message.Message, error) {
+			// a handler that honours the message context: a delivery whose context has already ended cannot be processed.
+			// (Nothing in these runs ends a subscription, so every delivery has to arrive with a live context; a message
+			// that keeps arriving dead never gets through.)
+			if cerr := m.Context().Err(); cerr != nil {
+				deadCtx[s.name+"/"+m.UUID]++
+				if n := deadCtx[s.name+"/"+m.UUID]; n < 8 {
+					return nil, cerr
+				} else if n == 8 {
+					r.Fail("C01.R1", "a message keeps being redelivered with an already ended context: a handler that honours the context can never process it", "%s: %s arrived %d times with %v", s.name, m.UUID, n, cerr)
+				}
+			}
 			s.calls++
 			iv := &c1Inv{stage: s, msg: m, lineage: m.UUID, n: s.calls}
 			s.invs = append(s.invs, iv)
